@@ -205,7 +205,7 @@ func (cfg *sysCfg) ops(f univ.Flavor) []hist.Op[*state] {
 }
 
 func run(c *core.Ctx) {
-	c.Rule = "explicit-state exploration of every history of <=D operations (one mutation per field class: scalar/bytes/enum/message/list/map/oneof/extension/unknown/lazy; clear-all; Size; touch-all; Unmarshal / Unmarshal{Merge} / Unmarshal{NoLazyDecoding} of 10 encodings plus a truncated and a trailing-garbage input, which fail and leave partial state) on a real message, each followed by every closing operation: Unmarshal(w) without Merge for each w (through UnmarshalOptions.Unmarshal, then again through UnmarshalState and proto.Unmarshal), which must leave the message identical to a fresh decode of w (Equal both ways, snapshot, deterministic bytes, and a full dump of Has/Get of EVERY field and registered extension, populated or not), and proto.Reset, which must leave it identical to a fresh empty message (same full dump, Size 0). Generated (open, opaque, hybrid, lazy) and dynamicpb messages"
+	c.Rule = "explicit-state exploration of every history of <=D operations (one mutation per field class: scalar/bytes/enum/message/list/map/oneof/extension/unknown/lazy; clear-all; Size; touch-all; Unmarshal / Unmarshal{Merge} / Unmarshal{NoLazyDecoding} of 10 encodings plus a truncated and a trailing-garbage input, which fail and leave partial state) on a real message, each followed by every closing operation: Unmarshal(w) without Merge for each w (through UnmarshalOptions.Unmarshal, then again through UnmarshalState and proto.Unmarshal), which must leave the message identical to a fresh decode of w (Equal both ways, snapshot, deterministic bytes, and a full dump of Has/Get of EVERY field and registered extension, populated or not), and proto.Reset - directly and through a wrapper value without a Reset method, which takes the reflection fallback -, which must leave it identical to a fresh empty message (same full dump, Size 0). Generated (open, opaque, hybrid, lazy) and dynamicpb messages"
 	c.Exhaustive = true
 	depth := core.Pick(c, 2, 3)
 	type tc struct {
@@ -285,7 +285,7 @@ func run(c *core.Ctx) {
 				}
 				return f.Name + ":[" + strings.Join(parts, " ; ") + "]"
 			}
-			for ci := 0; ci <= len(refs); ci++ {
+			for ci := 0; ci <= len(refs)+1; ci++ {
 				if ci < len(refs) && !refs[ci].ok {
 					continue
 				}
@@ -299,10 +299,18 @@ func run(c *core.Ctx) {
 					c.Transitions(1)
 					c.Traces(1)
 					c.Eval(1)
-					if ci == len(refs) {
-						proto.Reset(st.m.Interface())
+					if ci >= len(refs) {
+						how := "Reset"
+						if ci == len(refs) {
+							proto.Reset(st.m.Interface())
+						} else {
+							// a message value without a Reset method of its own: proto.Reset falls
+							// back to clearing through reflection (fields, extensions, unknown)
+							how = "Reset (reflection fallback, no Reset method)"
+							proto.Reset(struct{ proto.Message }{st.m.Interface()})
+						}
 						if got := fullDump(st.m); got != emptyDump {
-							c.Violation("Reset leaves state behind: history="+hname(), map[string]any{"want": emptyDump, "got": got})
+							c.Violation(how+" leaves state behind: history="+hname(), map[string]any{"want": emptyDump, "got": got})
 						}
 						if n := proto.Size(st.m.Interface()); n != 0 {
 							c.Violation(fmt.Sprintf("Reset: Size=%d history=%s", n, hname()), nil)
@@ -352,7 +360,7 @@ func run(c *core.Ctx) {
 		})
 		nh = int64(len(paths))
 		c.DistinctN(nh * int64(len(refs)+1))
-		out = append(out, map[string]any{"type": f.Name, "depth": t.d, "ops": len(ops), "histories": nh, "closings": len(refs) + 1})
+		out = append(out, map[string]any{"type": f.Name, "depth": t.d, "ops": len(ops), "histories": nh, "closings": len(refs) + 2})
 		c.Sample(map[string]any{"type": f.Name, "history": []string{ops[0].Name, ops[len(ops)-1].Name}, "closing": "Reset"})
 	}
 	c.Bounds["systems"] = out
